@@ -11,11 +11,12 @@
 From Boltons Require Import Lib.Prelude Lib.C08_Py.
 
 (* what a visit callback answers: drop the item, or keep it with possibly a new
-   key and/or a new (leaf) value.  [Put None None] = True = keep unchanged. *)
-Inductive action := Drop | Put (k : option key) (v : option nat).
+   key and/or a new value (a leaf, or a freshly built nested value).
+   [Put None None] = True = keep unchanged. *)
+Inductive action := Drop | Put (k : option key) (v : option val).
 Definition visit_fn := path -> key -> val -> action.
 
-Definition apply_action {A} (leaf : nat -> A) (a : action) (ky : key) (v : A) : option (key * A) :=
+Definition apply_action {A} (leaf : val -> A) (a : action) (ky : key) (v : A) : option (key * A) :=
   match a with
   | Drop => None
   | Put k' v' => Some (match k' with Some k => k | None => ky end,
@@ -35,7 +36,7 @@ Fixpoint rebuild (visit : visit_fn) (p : path) (v : val) {struct v} : val :=
             | [] => []
             | (ky, c) :: r =>
                 let c' := rebuild visit (p ++ [ky]) c in
-                opt_list (apply_action VLeaf (visit p ky c') ky c') ++ children r
+                opt_list (apply_action (fun x => x) (visit p ky c') ky c') ++ children r
             end) items))
   end.
 
@@ -55,7 +56,11 @@ Fixpoint calls (visit : visit_fn) (p : path) (v : val) {struct v} : list (path *
 (* ---- 2. object graphs ------------------------------------------------------- *)
 Inductive oref := RLeaf (n : nat) | RObj (id : nat) | ROther.
 Definition oref_of (o : obj) : oref :=
-  match o with OLeaf n => RLeaf n | ONode id _ _ | ORef id _ | OAlias id _ => RObj id | OBlank _ => ROther end.
+  match o with
+  | OLeaf n => RLeaf n
+  | ONode id _ _ | ORef id _ | OAlias id _ => RObj id
+  | OBlank _ | OVal _ => ROther
+  end.
 
 (* callbacks made, in order: enter(path,key,old value) / visit(path,key,new value) *)
 Inductive event :=
@@ -77,7 +82,7 @@ Section Recursive.
   Definition do_visit (p : path) (ky : key) (v : obj) (lg : list event) : option (key * obj) * list event :=
     match visit with
     | None => (Some (ky, v), lg)
-    | Some f => (apply_action OLeaf (f p ky (erase v)) ky v, lg ++ [EVisit p ky (erase v)])
+    | Some f => (apply_action oval (f p ky (erase v)) ky v, lg ++ [EVisit p ky (erase v)])
     end.
 
   (* the rebuilt value of the occurrence [o] found under key [ky] at path [p];
